@@ -7,6 +7,7 @@ mod gen;
 mod handles;
 mod replay;
 mod rng;
+mod sink;
 mod trace;
 mod traces;
 
@@ -44,11 +45,19 @@ pub fn guarded<T>(f: impl FnOnce() -> T + panic::UnwindSafe) -> Result<T, String
 
 fn main() {
     let args: Vec<String> = std::env::args().collect();
-    if args.len() < 3 {
+    if args.len() < 4 {
         eprintln!("usage: pgv replay|trace <kind> <file> [options]");
         std::process::exit(2);
     }
     quiet_panics();
+    if args[1] == "write-cache" {
+        // child process of the C14 driver: write the cache of a mapping file
+        let src = std::fs::read(&args[2]).expect("mapping file");
+        let mut out = Vec::new();
+        proguard::ProguardCache::write(&proguard::ProguardMapping::new(&src), &mut out).expect("write");
+        std::fs::write(&args[3], out).expect("output");
+        return;
+    }
     let code = match args[1].as_str() {
         "replay" => replay::run(&args[2], &args[3..]),
         "trace" => trace::run(&args[2], &args[3..]),
